@@ -73,6 +73,13 @@ class _FakeRules:
         return _FakeMatch(source, pos, self.ln, self.kind, self.groups)
 
 
+def _err_span_ok(tok, n: int) -> bool:
+    """An error's token: no token, no position (start < 0), or start and stop both inside a source of length n."""
+    if tok is None or tok.start < 0:
+        return True
+    return 0 <= tok.start < max(n, 1) and tok.start <= tok.stop <= max(n, 1)
+
+
 def _tiles(tokens, upto: int) -> bool:
     at = 0
     for t in tokens:
@@ -171,7 +178,7 @@ def k_string_token(src: str, dq: bool) -> bool:
     try:
         lx.accept_template_string(quote=quote, expression=out)
     except LiquidSyntaxError as e:
-        return e.token is not None and 0 <= e.token.start < len(full)
+        return e.token is not None and e.token.start >= 0 and _err_span_ok(e.token, len(full))
     except Exception:  # noqa: BLE001
         return False
     if len(out) != 1:
@@ -202,6 +209,9 @@ def _corpus() -> list[str]:
         "é{# c #}ü{{ 'ö' }}", "{%- # c -%}\n{%- assign a = 1 -%}{{ a }}",
         "{{ \"${(1..3)}\" }}{{ (1..2) }}{{ \"a${ (x..y) | join: '-' }b\" }}{% for i in (a.b..c[0]) %}{{ i }}{% endfor %}",
         "{{ a[b.c].d['e f'] }}{{ 'x${ p[q] }y${ 'n${z}' }' }}{% liquid\n  echo (1..x)\n  assign v = \"${ a.b }\"\n%}",
+        # sources that fail to tokenize: the error's whole span (start and stop) must lie inside the source
+        "{% comment %}aaaa{% comment %}bbbb", "{% comment %}a{% comment %}b{% endcomment %}", "ab{% raw %}cd", "{{ a | f: 'x }}", "x{% if a == %}y",
+        "{% liquid\n  comment\n  a\n%}", "{{ \"a${ b \" }}",
     ]
     return out + extra
 
@@ -214,7 +224,7 @@ def _spans_ok(src: str) -> bool:
         toks = ENV.tokenize(src)
     except LiquidSyntaxError as e:
         tok = e.token
-        return tok is None or tok.start < 0 or 0 <= tok.start < max(len(src), 1)
+        return _err_span_ok(tok, len(src))
     if not src:
         return toks == []
     if not _tiles(toks, len(src)):
@@ -266,18 +276,18 @@ def _nested_ok(tok, lo: int, hi: int) -> bool:
     return True
 
 
-LAYOUTS = CORPUS[-11:]
+LAYOUTS = CORPUS[-18:]
 
 
 @cond(
-    pre=["0 <= i < 11"],
+    pre=["0 <= i < 18"],
     timeout=120,
     covers="tokens after {# #}, {% # %}, block comments, raw and liquid tags start where the previous token stopped (real lexer, concrete layouts)",
-    bounds="11 layouts: comments of every kind before every construct, ranges and paths nested in template strings, liquid tags (i enumerated by the solver)",
-    grid=lambda: [(i,) for i in range(11)],
+    bounds="18 layouts: comments of every kind before every construct, ranges and paths nested in template strings, liquid tags, 7 sources that fail to tokenize (error span inside the source) (i enumerated by the solver)",
+    grid=lambda: [(i,) for i in range(18)],
 )
 def d_comment_layouts(i: int) -> bool:
-    return _spans_ok(LAYOUTS[concrete_int(i, 0, 10)])
+    return _spans_ok(LAYOUTS[concrete_int(i, 0, 17)])
 
 
 @cond(
@@ -389,7 +399,7 @@ def i_expr_symbolic(c0: str, kind: int, src: str, N: int) -> bool:
             return True
         if not _render_error(e):
             return False
-        return tok.start < 0 or 0 <= tok.start < len(full)
+        return _err_span_ok(tok, len(full))
     lx, nxt = res[1]
     if nxt != lx.lex_markup or not lx.markup:
         return False
@@ -413,7 +423,7 @@ def _spans_ok_env(env, src: str) -> bool:
         toks = env.tokenize(src)
     except LiquidSyntaxError as e:
         tok = e.token
-        return tok is None or tok.start < 0 or 0 <= tok.start < max(len(src), 1)
+        return _err_span_ok(tok, len(src))
     if not src:
         return toks == []
     if not _tiles(toks, len(src)):
